@@ -55,12 +55,50 @@ def kernel_sample(F, d, p, rnd):
 def gen_walk(rnd, p, steps, nmax, vine):
     F = []
     path = []
+    # every second walk: a transposition near the end is followed by remove_last down to (or just past) the swapped
+    # positions and by new insertions there - state left behind by a swap in slots that removals free again
+    shrink_regrow = vine and rnd.random() < 0.5
+    pending_removes = 0
+    regrow = 0
     for _ in range(steps):
         ops = ["insert"] * 5 + ["remove_last"]
         if vine:
             ops += ["vine_swap"] * 4 + ["remove_maximal"]
         op = rnd.choice(ops)
         n = len(F)
+        if pending_removes > 0 and n > 0:
+            op = "remove_last"
+            pending_removes -= 1
+            if pending_removes == 0:
+                regrow = 2
+        elif regrow > 0 and n < nmax:
+            # regrow: a new vertex in the freed slot, then an edge whose pivot is that vertex
+            verts = [i for i, c in enumerate(F) if c["dim"] == 0]
+            if regrow == 2 or not verts or F[-1]["dim"] != 0:
+                bd, d = {}, 0
+            else:
+                other = [v for v in verts if v != n - 1]
+                if not other:
+                    regrow = 0
+                    continue
+                bd, d = {rnd.choice(other): p - 1 if p > 2 else 1, n - 1: 1}, 1
+            regrow -= 1
+            F.append({"dim": d, "bd": bd})
+            path.append({"act": {"op": "insert", "d": d, "bd_set": [{"x": x, "c": c} for x, c in sorted(bd.items())]}, "to": -1})
+            continue
+        elif shrink_regrow and n >= 4 and rnd.random() < 0.25:
+            # a swap among the last cells, then the removals
+            cand = [i for i in range(max(0, n - 4), n - 1) if i not in F[i + 1]["bd"]]
+            if cand:
+                i = rnd.choice(cand)
+                a, b = F[i], F[i + 1]
+                F[i], F[i + 1] = b, a
+                tau = lambda x, i=i: i + 1 if x == i else (i if x == i + 1 else x)
+                for c in F:
+                    c["bd"] = {tau(x): v for x, v in c["bd"].items()}
+                path.append({"act": {"op": "vine_swap", "i": i, "ret_set": [False, True], "ret_ok": True}, "to": -1})
+                pending_removes = n - (i + 1) + rnd.randrange(2)
+                continue
         if op == "insert" and n < nmax:
             d = rnd.choice([0, 0, 1, 1, 1, 2, 2, 3])
             if d == 0:
